@@ -376,9 +376,14 @@ func contractsFor(c *Ctx, prop string) *bounds.Hooks {
 	case "C10", "C14":
 		c.fragLoopsSeen = map[*ssa.BasicBlock]bool{}
 		c.lenPairsSeen = map[ssa.Instruction]bool{}
+		if prop == "C10" {
+			return mergeHooks(twoFragHooks(c, c.fragLoopsSeen), lenPrefixHooks(c, c.lenPairsSeen), stapAOptionHooks(c, &c.stapASeen))
+		}
 		return mergeHooks(twoFragHooks(c, c.fragLoopsSeen), lenPrefixHooks(c, c.lenPairsSeen))
 	case "C17":
 		return c17Hooks(c, &c.c17Seen)
+	case "C16":
+		return opusCountHooks(c)
 	case "C13":
 		c.lenPairsSeen = map[ssa.Instruction]bool{}
 		return mergeHooks(lenPrefixHooks(c, c.lenPairsSeen), wClosedHooks(c, &c.wClosedSeen), carryNilHooks(c, "codecs.(*AV1Payloader).Payload", &c.carryNilSeen))
